@@ -10,7 +10,7 @@ use serde_json::{json, Value};
 pub static DEF: PropDef = PropDef {
     id: "C07",
     title: "Every emitted length field is exact; oversize values are refused",
-    rule: "In range: G-val control messages (incl. messages filled to exactly 65 535 octets) and single AVPs. Oversize: every variable-length kind and opaque hidden AVPs with payloads that make \
+    rule: "In range: G-val control messages and AVPs, encoded into a writer that already holds a prefix of 0..~200 000 octets in half of the cases (incl. messages filled to exactly 65 535 octets) and single AVPs. Oversize: every variable-length kind and opaque hidden AVPs with payloads that make \
 the AVP 1024..~5000 octets (with extra mass on 1024 and 1025), control messages whose body crosses 65 535 octets by 1..2000, and hide() inputs whose original AVP or padded hidden value \
 crosses the 1023-octet limit. Oracle: an independent length walker over the emitted octets - control Length = octets emitted, every AVP length >= 6, the AVPs tile Length-12 exactly, each AVP's extent = \
 its length field = 6 + get_length(). For every case either the call panicked or all those equalities hold; in range a panic is itself a violation. Non-trivial = an AVP total > 255 \
@@ -26,8 +26,8 @@ its length field = 6 + get_length(). For every case either the call panicked or 
 
 fn parts(t: Tier) -> Vec<Part> {
     let (a, b, c, d, e) = match t {
-        Tier::Quick => (120_000, 200_000, 60_000, 3_000, 60_000),
-        Tier::Thorough => (1_500_000, 3_000_000, 1_000_000, 40_000, 1_000_000),
+        Tier::Quick => (360_000, 600_000, 180_000, 9_000, 180_000),
+        Tier::Thorough => (3_000_000, 6_000_000, 2_000_000, 80_000, 2_000_000),
     };
     vec![tape("messages", a, 2500), tape("avps", b, 1200), tape("oversize-avp", c, 300), tape("oversize-msg", d, 400), tape("hide-limits", e, 300)]
 }
@@ -54,13 +54,14 @@ fn walk(body: &[u8]) -> Result<Vec<usize>, String> {
 }
 
 /// encode one AVP alone; Ok(None) = refused (panicked)
-fn enc_avp(a: &SAvp) -> Result<Option<(Vec<u8>, usize)>, Failure> {
+fn enc_avp(a: &SAvp, prefix: &[u8]) -> Result<Option<(Vec<u8>, usize)>, Failure> {
     let ca = to_crate(a);
     match guard(|| {
         let mut w = VecWriter::new();
+        w.data = prefix.to_vec();
         ca.write(&mut w);
         let gl = ca.get_length();
-        (w.data, gl)
+        (w.data.split_off(prefix.len().min(w.data.len())), gl)
     }) {
         Caught::Ok(x) => Ok(Some(x)),
         Caught::Panic(_) => Ok(None),
@@ -102,10 +103,10 @@ pub fn abbreviate(a: &SAvp) -> SAvp {
     SAvp { attr: a.attr, hidden: a.hidden, body }
 }
 
-pub fn check_avp(a: &SAvp, in_range: bool, cx: &mut Cx) -> Res {
+pub fn check_avp(a: &SAvp, prefix: &[u8], in_range: bool, cx: &mut Cx) -> Res {
     cx.eval();
     cx.stage(STAGE_ARMED);
-    let r = enc_avp(a)?;
+    let r = enc_avp(a, prefix)?;
     cx.stage(STAGE_SETUP);
     let wl = avp_wire_len(a);
     match r {
@@ -140,16 +141,16 @@ pub fn check_avp(a: &SAvp, in_range: bool, cx: &mut Cx) -> Res {
     Ok(())
 }
 
-pub fn check_msg(m: &SMsg, in_range: bool, family: &'static str, cx: &mut Cx) -> Res {
+pub fn check_msg(m: &SMsg, prefix: &[u8], in_range: bool, family: &'static str, cx: &mut Cx) -> Res {
     cx.eval();
     let avps = match m {
         SMsg::Control { avps, .. } => avps,
         _ => return Ok(()),
     };
     let total: usize = 12 + avps.iter().map(avp_wire_len).sum::<usize>();
-    let render = || json!({"avps": avps.len(), "specified_total": total, "first_avps": format!("{:?}", avps.iter().take(3).map(abbreviate).collect::<Vec<_>>())});
+    let render = || json!({"avps": avps.len(), "specified_total": total, "writer_already_holds_octets": prefix.len(), "first_avps": format!("{:?}", avps.iter().take(3).map(abbreviate).collect::<Vec<_>>())});
     cx.stage(STAGE_ARMED);
-    let r = crate_encode_msg(m);
+    let r = crate_encode_msg_after(m, prefix);
     cx.stage(STAGE_SETUP);
     match r {
         Caught::Panic(p) => {
@@ -312,7 +313,7 @@ fn check_hide_limits(t: &mut Tape, cx: &mut Cx) -> Res {
                 return fail("hidden value is empty or not a multiple of 16 octets", render());
             }
             // writing the hidden AVP: refused when it does not fit, exact otherwise
-            match enc_avp(&sh)? {
+            match enc_avp(&sh, &[])? {
                 None => {
                     if 6 + v.len() <= 1023 {
                         return fail("writing a hidden AVP within the size limits panicked", render());
@@ -339,11 +340,21 @@ fn run_tape(part: &str, tape: &[u8], cx: &mut Cx) -> Res {
     match part {
         "messages" => {
             let m = if t.chance(3) { gen_control_big(&mut t) } else { gen_control(&mut t) };
-            check_msg(&m, true, "messages", cx)
+            let p = gen_prefix(&mut t);
+            if !p.is_empty() {
+                cx.class("message encoded after a non-empty prefix");
+            }
+            check_msg(&m, &p, true, "messages", cx)
         }
-        "avps" => check_avp(&gen_avp(&mut t), true, cx),
-        "oversize-avp" => check_avp(&gen_oversize_avp(&mut t), false, cx),
-        "oversize-msg" => check_msg(&gen_oversize_msg(&mut t), false, "oversize-msg", cx),
+        "avps" => {
+            let p = gen_prefix(&mut t);
+            check_avp(&gen_avp(&mut t), &p, true, cx)
+        }
+        "oversize-avp" => {
+            let p = if t.chance(25) { gen_prefix(&mut t) } else { Vec::new() };
+            check_avp(&gen_oversize_avp(&mut t), &p, false, cx)
+        }
+        "oversize-msg" => check_msg(&gen_oversize_msg(&mut t), &[], false, "oversize-msg", cx),
         _ => check_hide_limits(&mut t, cx),
     }
 }
